@@ -501,6 +501,7 @@ pub fn c08(r: &mut Rng, t: u32, n: usize) -> Vec<Value> {
             _ => {
                 let (c, f) = decimal(r);
                 let (c2, f2) = decimal(r);
+                let ((c, f), (c2, f2)) = if r.below(3) == 0 { let (p, q) = wrap_alias(r); if r.bool() { (p, q) } else { (q, p) } } else { ((c, f), (c2, f2)) };
                 v.push(json!({"ev": "cmp", "t": t, "op": *r.pick(&ops), "x": dj(c, f), "y": dj(c2, f2), "xt": "dec", "yt": "dec"}));
             }
         }
@@ -522,6 +523,8 @@ pub fn c08a(r: &mut Rng, t: u32, n: usize) -> Vec<Value> {
     while v.len() < n {
         let (c, f) = decimal(r);
         let (c2, f2) = if r.below(3) == 0 { (c, f) } else { decimal(r) };
+        // one pair in eight: coefficients that alias each other under wrapping scale alignment (either order)
+        let ((c, f), (c2, f2)) = if r.below(8) == 0 { let (p, q) = wrap_alias(r); if r.bool() { (p, q) } else { (q, p) } } else { ((c, f), (c2, f2)) };
         if r.below(4) == 0 {
             v.push(json!({"ev": "un", "t": t, "op": "copy", "x": dj(c, f), "n": 0}));
         } else {
